@@ -30,4 +30,27 @@ b, e = "<!-- BEGIN GENERATED TABLE -->", "<!-- END GENERATED TABLE -->"
 if b in s:
     s = s[:s.index(b) + len(b)] + "\n" + table + "\n" + s[s.index(e):]
     open(path, "w").write(s)
+# second table: seeded changes
+st = {}
+sp = os.path.join(here, "seeded", "strengthened.json")
+if os.path.exists(sp):
+    st = json.load(open(sp))
+rows2 = ["| prop | changed file(s) | what the change does / trigger | caught by | history |", "|------|-----------------|-------------------------------|-----------|---------|"]
+for p in props:
+    pid = p["id"]
+    sm = os.path.join(here, "seeded", pid, "meta.json")
+    if not os.path.exists(sm):
+        continue
+    m = json.load(open(sm))
+    files = ", ".join(os.path.basename(f) for f in m.get("files", []))
+    trig = (m.get("trigger") or m.get("summary") or "").replace("|", "/").replace("\n", " ")
+    if len(trig) > 230:
+        trig = trig[:227] + "…"
+    rows2.append(f"| {pid} | {files} | {trig} | {', '.join(m.get('caught_by', [])) or '—'} | {st.get(pid, '')} |")
+table2 = "\n".join(rows2)
+b2, e2 = "<!-- BEGIN SEEDED TABLE -->", "<!-- END SEEDED TABLE -->"
+s2 = open(path).read()
+if b2 in s2:
+    s2 = s2[:s2.index(b2) + len(b2)] + "\n" + table2 + "\n" + s2[s2.index(e2):]
+    open(path, "w").write(s2)
 print(table)
